@@ -64,6 +64,14 @@ def _mode_tuple(adapter, nr):
     raise CheckError('mode %s SCREEN %d not in modes._MODES' % (adapter, nr))
 
 
+def _frac_attr(v):
+    if v == 0:
+        return b'.4'
+    if v % 2:
+        return b'%d.5' % (v - 1)
+    return b'%d.6' % (v - 1)
+
+
 class Scene(object):
     """A session with a cw x ch canvas placed on the page.
 
@@ -157,6 +165,9 @@ class Scene(object):
             elif self.window == 'wc':
                 lx, ly = lx + 100, 100 + (g.h - 1 - ly)
             stmt = b'PAINT (%d,%d),%d,%d' % (lx, ly, fill, border)
+            if (sx + sy) % 2 == 0:
+                # the attributes written as fractions that round to them (halves away from zero: 2.5 is attribute 3)
+                stmt = b'PAINT (%d,%d),%s,%s' % (lx, ly, _frac_attr(fill), _frac_attr(border))
         case = dict(case, seed=[sx, sy], fill=fill, border=border, stmt=stmt)
         r = G.run_timed(g.s, stmt, 30)
         part.n += 1
